@@ -65,7 +65,7 @@ def val_eq(I, a, b):
     return a == b
 
 
-def roundtrip(run, repo, label, specs, write_date=False, as_dict=False, fmt='list', supp=None):
+def roundtrip(run, repo, label, specs, write_date=False, as_dict=False, fmt='list', supp=None, order=None):
     m = repo.module(TD)
     wfn, rfn = m.functions.get('write_thermdat'), m.functions.get('read_thermdat')
     if wfn is None or rfn is None:
@@ -85,6 +85,8 @@ def roundtrip(run, repo, label, specs, write_date=False, as_dict=False, fmt='lis
         return o
     I.native['datetime.datetime.now'] = now
     species = [make_species(I, i, *sp) for i, sp in enumerate(specs)]
+    if order is not None:
+        species = [species[i] for i in order]          # a sequence may hold the same species (name) more than once
     coll = DictV({sp.attrs['name']: sp for sp in species}) if as_dict else ListV(list(species))
     wkw = {'nasa_species': coll, 'write_date': write_date}
     expect = list(species)
@@ -320,6 +322,16 @@ def check(run, repo):
                     continue
                 layout_rules(run, repo, res, label)
                 compare_species(run, repo, res, label)
+    # a sequence in which one species (one name) occurs more than once: a sequence is written entry by entry, in order
+    for order, fmt in (((0, 1, 0), 'list'), ((0, 0), 'tuple'), ((1, 0, 2, 0, 1), 'list')):
+        label = 'sequence with repeated species %s format=%s' % (list(order), fmt)
+        res = roundtrip(run, repo, label, multi, fmt=fmt, order=order)
+        n_cases += 1
+        if 'write_error' in res:
+            run.fail('TABLE.write', 'thermdat.write_thermdat', 'raises', '[%s] writing raises %s'
+                     % (label, show(res['write_error'])), repo.module(TD), repo.module(TD).functions['write_thermdat'])
+            continue
+        compare_species(run, repo, res, label, ' [repeated species]')
     # supplementary data / comment block in every combination of presence and final newline
     for data_nl, txt, txt_nl in ((True, False, False), (False, False, False), (None, True, True), (None, True, False),
                                  (True, True, True), (False, True, True), (True, True, False), (False, True, False)):
@@ -342,7 +354,7 @@ def check(run, repo):
                                                                                else ''),
                   repo.module(TD), repo.module(TD).functions['write_thermdat'])
         compare_species(run, repo, res, label, ' [%s]' % label)
-    run.floor('thermdat cases', n_cases, 30)
+    run.floor('thermdat cases', n_cases, 33)
     run.extra['cases'] = n_cases
     # record lines must never be classified by a test that depends on user-controlled text
     m = repo.module(TD)
